@@ -58,6 +58,8 @@ def wclass(logw):
         return "partly_neg_inf"
     if np.ptp(lw) < 1e-3:
         return "near_uniform"
+    if np.ptp(lw) <= 0.2:
+        return "mildly_uneven"
     if np.ptp(lw) > 30:
         return "wide_range"
     return "generic"
@@ -196,7 +198,7 @@ def cases():
     @st.composite
     def _c(draw):
         N = draw(st.sampled_from([1, 2, 2, 3, 3, 4, 5, 7, 8, 8, 13, 16, 32, 64]))
-        kind = draw(st.sampled_from(["generic", "generic", "degenerate", "partly", "partly_tail", "near_uniform", "wide", "uniform"]))
+        kind = draw(st.sampled_from(["generic", "generic", "degenerate", "partly", "partly_tail", "near_uniform", "mild", "mild", "wide", "uniform"]))
         if kind == "generic":
             lw = [draw(st.floats(-4, 4, allow_nan=False, width=32)) for _ in range(N)]
         elif kind == "degenerate":
@@ -215,6 +217,9 @@ def cases():
         elif kind == "near_uniform":
             base = draw(fin)
             lw = [base + draw(st.sampled_from([0.0, 1e-6, -1e-6, 1e-5])) for _ in range(N)]
+        elif kind == "mild":  # within about +-10% of 1/N: a well-balanced but not uniform collection (ESS close to N)
+            base = draw(st.floats(-3, 3, allow_nan=False, width=32))
+            lw = [base + draw(st.floats(-0.1, 0.1, allow_nan=False, width=32)) for _ in range(N)]
         elif kind == "wide":
             lw = [draw(st.floats(-30, 30, allow_nan=False, width=32)) for _ in range(N)]
         else:
